@@ -645,12 +645,19 @@ func (a *analysis) checkControl(x *verifkit.Exec) {
 	open := map[string]int{} // connector -> currently open instances
 	status := ""
 	calls := map[int]verifkit.Event{}
+	callLive, callStatus := map[int]bool{}, map[int]string{}
+	startInFlight, startInFlightStatus := 0, ""
 	for _, e := range a.evs {
 		switch {
 		case (isSource(e.Comp) || isDest(e.Comp) || e.Comp == "dlq") && e.Kind == "open":
 			open[e.Comp]++
 			if open[e.Comp] > 1 {
-				a.bad("C11/two-runs-at-once", "connector %s was opened while an earlier instance of it was still open: two runs of the pipeline exist at once (event #%d)", e.Comp, e.Seq)
+				key := "C11/two-runs-at-once"
+				if startInFlight > 0 && startInFlightStatus == "Recovering" {
+					// a Start issued by the user while the pipeline waits for its recovery restart runs concurrently with that restart
+					key += "/user-start-races-recovery-restart/" + a.p.Engine
+				}
+				a.bad(key, "connector %s was opened while an earlier instance of it was still open: two runs of the pipeline exist at once (event #%d)", e.Comp, e.Seq)
 			}
 		case (isSource(e.Comp) || isDest(e.Comp) || e.Comp == "dlq") && e.Kind == "teardown":
 			if open[e.Comp] > 0 {
@@ -666,8 +673,28 @@ func (a *analysis) checkControl(x *verifkit.Exec) {
 			}
 		case e.Comp == "ctl" && e.Kind == "call":
 			calls[e.Seq] = e
+			if k := strings.LastIndex(e.Arg, "#"); k >= 0 {
+				n := 0
+				fmt.Sscanf(e.Arg[k+1:], "%d", &n)
+				live := false
+				for _, c := range open {
+					if c > 0 {
+						live = true
+					}
+				}
+				callLive[n], callStatus[n] = live, status
+				if strings.HasPrefix(e.Arg, "start#") {
+					startInFlight, startInFlightStatus = n, status
+				}
+			}
 		case e.Comp == "ctl" && strings.HasPrefix(e.Kind, "hist."):
 			op := strings.TrimSuffix(strings.TrimPrefix(e.Kind, "hist."), ".ret")
+			if op == "start" && e.Idx == startInFlight {
+				startInFlight = 0
+			}
+			// what the call could observe spans from its issue to its return: judge it only when the relevant state was the
+			// same at both ends (a call that overlaps the end of a run or a restart may legitimately see either)
+			liveAtCall, statusAtCall := callLive[e.Idx], callStatus[e.Idx]
 			res := strings.SplitN(e.Arg, "|status=", 2)
 			memStatus := ""
 			if len(res) == 2 {
@@ -681,18 +708,19 @@ func (a *analysis) checkControl(x *verifkit.Exec) {
 			}
 			switch op {
 			case "stop", "stopwait", "force":
-				if res[0] != "nil" && strings.Contains(res[0], "not running") && liveRun && (memStatus == "Running") {
+				if res[0] != "nil" && strings.Contains(res[0], "not running") && liveRun && (memStatus == "Running") && liveAtCall && statusAtCall == "Running" {
 					a.bad("C11/stop-misses-live-run", "%s was refused (%s) although the pipeline is reported Running and its connectors are open: the call did not find the live run (event #%d)", op, res[0], e.Seq)
 				}
 				if op == "stopwait" && res[0] == "nil" && liveRun && a.healthy {
 					a.bad("C11/stop-acted-on-another-run", "stop-and-wait returned nil but connectors of a run are still open (event #%d): it acted on an earlier run", e.Seq)
 				}
 			case "wait":
-				if res[0] == "nil" && liveRun && memStatus == "Running" && a.healthy {
+				if res[0] == "nil" && liveRun && memStatus == "Running" && a.healthy && liveAtCall && statusAtCall == "Running" {
 					a.bad("C11/wait-returned-for-another-run", "WaitPipeline returned nil while the pipeline is Running with open connectors (event #%d): it waited for an earlier run", e.Seq)
 				}
 			case "start":
-				if res[0] != "nil" && !liveRun && memStatus != "Running" && memStatus != "Recovering" && a.healthy && !strings.Contains(res[0], "verif:") {
+				if res[0] != "nil" && !liveRun && memStatus != "Running" && memStatus != "Recovering" && a.healthy && !strings.Contains(res[0], "verif:") &&
+					!liveAtCall && statusAtCall != "Running" && statusAtCall != "Recovering" {
 					a.bad("C11/start-refused-after-run-ended", "Start failed (%s) although no run is live (status %s): the previous run was not fully released (event #%d)", res[0], memStatus, e.Seq)
 				}
 			}
@@ -725,9 +753,51 @@ func (a *analysis) checkControl(x *verifkit.Exec) {
 			a.bad("C11/status-running-without-run", "the stored status is Running but no connector of the pipeline is open: the status does not agree with how the last run ended")
 		}
 		if liveRun && status != "Running" && status != "Recovering" && status != "" {
-			a.bad("C11/run-alive-but-status-stopped", "connectors of a run are still open while the stored status is %s", status)
+			key := "C11/run-alive-but-status-stopped"
+			if earlierRunStatusLandedLate(a.evs) {
+				// the terminal status of an EARLIER (failed) run was written after a later Start had already stored Running
+				key += "/status-of-earlier-run-lands-after-restart/" + a.p.Engine
+			}
+			a.bad(key, "connectors of a run are still open while the stored status is %s", status)
 		}
 	}
+}
+
+// earlierRunStatusLandedLate: after the last source open, the status went Running and then to a terminal status although
+// no source was torn down in between - the terminal status cannot be the live run's.
+func earlierRunStatusLandedLate(evs []verifkit.Event) bool {
+	lastOpen := -1
+	for _, e := range evs {
+		if e.Comp == "end" {
+			break
+		}
+		if isSource(e.Comp) && e.Kind == "open" {
+			lastOpen = e.Seq
+		}
+	}
+	running := false
+	for _, e := range evs {
+		if e.Comp == "end" {
+			break
+		}
+		if e.Seq <= lastOpen {
+			continue
+		}
+		if isSource(e.Comp) && e.Kind == "teardown" {
+			return false
+		}
+		if e.Comp == "db" && e.Kind == "put" && strings.HasPrefix(e.Arg, "pipeline:instance:") {
+			if parts := strings.SplitN(e.Arg, "|", 2); len(parts) == 2 {
+				_, st, _ := stack.ParseDescribe(parts[1])
+				if st == "Running" {
+					running = true
+				} else if running && (st == "Degraded" || st == "UserStopped" || st == "SystemStopped") {
+					return true
+				}
+			}
+		}
+	}
+	return false
 }
 
 // waitMayBlock reports whether a WaitPipeline call is entitled to block at the end of the execution: a run is live (a
@@ -874,6 +944,9 @@ func (a *analysis) checkApply(x *verifkit.Exec) {
 	var okApplies []applied
 	beginOf := map[int]verifkit.Event{}
 	applying := 0
+	openFailsDuring := 0
+	rollbackReopenFailed := false
+	failedWhileRecovering := false
 	overlapped := false
 	opensDuring, teardownsDuring := 0, 0
 	var begin verifkit.Event
@@ -888,7 +961,10 @@ func (a *analysis) checkApply(x *verifkit.Exec) {
 			settled = false
 			begin = e
 			beginOf[e.Idx] = e
+			openFailsDuring = 0
 			opensDuring, teardownsDuring = 0, 0
+		case strings.HasPrefix(e.Comp, "proc:") && e.Kind == "openfail" && applying > 0:
+			openFailsDuring++
 		case (isSource(e.Comp) || isDest(e.Comp)) && e.Kind == "open" && applying > 0:
 			opensDuring++
 		case (isSource(e.Comp) || isDest(e.Comp)) && e.Kind == "teardown" && applying > 0:
@@ -917,6 +993,8 @@ func (a *analysis) checkApply(x *verifkit.Exec) {
 					storedGen[kv[:i]] = kv[i+1:]
 				}
 			}
+			rollbackReopenFailed = errText != "nil" && openFailsDuring >= 2
+			failedWhileRecovering = errText != "nil" && statusAt(a.evs, beginOf[e.Idx].Seq) == "Recovering"
 			if errText == "nil" {
 				b := beginOf[e.Idx]
 				base := ""
@@ -945,7 +1023,17 @@ func (a *analysis) checkApply(x *verifkit.Exec) {
 			// a record processed while no apply is in flight must be processed by what the stored configuration says
 			name := strings.SplitN(strings.TrimPrefix(e.Comp, "proc:"), "#", 2)[0]
 			if want, ok := storedGen[name]; ok && genOf(e.Arg) != "" && genOf(e.Arg) != want {
-				a.bad("C16/running-config-differs-from-stored", "record %d was processed by processor %s with configuration %s while the stored configuration says %s (event #%d): after the apply the running pipeline and the stored configuration disagree", e.Idx, name, genOf(e.Arg), want, e.Seq)
+				key := "C16/running-config-differs-from-stored"
+				if failedWhileRecovering {
+					// the apply was submitted while the pipeline sat in its recovery back-off: the automatic restart built its
+					// nodes from the stored configuration in the middle of the (later rolled back) apply
+					key += "/apply-raced-recovery-restart"
+				} else if rollbackReopenFailed {
+					// the in-place apply failed (a new processor could not be opened) AND the roll-back could not re-open the
+					// previous configuration of a processor that had already been swapped
+					key += "/rollback-reopen-failed"
+				}
+				a.bad(key, "record %d was processed by processor %s with configuration %s while the stored configuration says %s (event #%d): after the apply the running pipeline and the stored configuration disagree", e.Idx, name, genOf(e.Arg), want, e.Seq)
 			}
 		}
 	}
@@ -965,6 +1053,24 @@ func (a *analysis) checkApply(x *verifkit.Exec) {
 			}
 		}
 	}
+}
+
+// statusAt returns the stored pipeline status at event seq.
+func statusAt(evs []verifkit.Event, seq int) string {
+	status := ""
+	for _, e := range evs {
+		if e.Seq > seq {
+			break
+		}
+		if e.Comp == "db" && e.Kind == "put" && strings.HasPrefix(e.Arg, "pipeline:instance:") {
+			if parts := strings.SplitN(e.Arg, "|", 2); len(parts) == 2 {
+				if _, st, _ := stack.ParseDescribe(parts[1]); st != "" {
+					status = st
+				}
+			}
+		}
+	}
+	return status
 }
 
 func wasRunningAt(evs []verifkit.Event, seq int) bool {
